@@ -203,7 +203,7 @@ func (i *Invitation) UnmarshalXML(d *xml.Decoder, start xml.StartElement) error 
 
 	s := struct {
 		XMLName xml.Name `xml:"http://jabber.org/protocol/muc#user x"`
-		Invite  struct {
+		Invite  *struct {
 			To       jid.JID `xml:"to,attr"`
 			Reason   string  `xml:"reason"`
 			Continue struct {
@@ -216,6 +216,12 @@ func (i *Invitation) UnmarshalXML(d *xml.Decoder, start xml.StartElement) error 
 	err := d.DecodeElement(&s, &start)
 	if err != nil {
 		return err
+	}
+	if s.Invite == nil {
+		// A muc#user payload without an invite element (a decline, a status
+		// notification) is not an invitation: leave the value empty.
+		*i = Invitation{}
+		return nil
 	}
 	i.XMLName = s.XMLName
 	i.Continue = s.Invite.Continue.XMLName.Local != ""
